@@ -38,6 +38,10 @@ CHECKS["C12"] = dict(level="model_checking", engine="tlc-trace",
    technique="every logged interval operation is an action of IntervalTrace.tla whose expected result is the definitional interval over extended rationals; equality for exact bound types, BigInt enclosure for integer/double bounds",
    text="Seeded operand pairs over all sign/shape configurations (open, closed, unbounded, singleton, empty, equal, aliased) for rational, integer and double intervals; for each pair 21 operations and predicates (neg, add, sub, mul, div, join, intersect, difference, refinement by a relation, aliased calls, contains / strictly_contains / disjoint / equal / bounded / singleton) are validated: exact bound types must reproduce the definitional result exactly (bounds, openness, infinities, emptiness), inexact ones must enclose it.",
    note="Trusted: TLC, BigInt.tla. Not covered: interval linear forms, linearization of floating-point expressions, wrap_assign of intervals (C17), float/long double interval types other than double.", ref="§5 C12")
+CHECKS["C05"] = dict(level="model_checking", engine="tlc-trace",
+   technique="trace validation of recorded grid calls against GridTrace.tla (lattice equality by determinantal criteria, exact disjointness on generators, images on generators / preimages on congruences, finite-quotient difference)",
+   text="TLC-generated histories over a pool of 3 grids (random walks with state-driver bias, and recipe histories: state drivers x target operation) are executed on the real Grid class; after every call both minimized descriptions of every slot must denote the same lattice (determinant criterion, nothing shared with the library's reduction), every query must answer what the lattice dictates and every mutator must produce the definitional lattice.",
+   note="Trusted: TLC, GridSem/GridTrace operators, harness/grid.cc. Bounds: dimension <= 3, moduli <= 4, divisors <= 3; emptiness of a system of >= 2 added congruences and of non-invertible preimages is undecided; difference is decided only when the result differs from the minuend or one operand contains / misses the other. One known finding (OK() after conversion).", ref="§5 C05")
 NOT_YET = {}
 
 
